@@ -35,6 +35,7 @@ DOCS = [
     "mutation { ... on Mutation { set(v: \"s\") { id name } other { b tags } } }",
     "mutation { ... { inc other { b } must } }",
     "mutation { other { b tags strict } inc }",
+    "mutation { x: inc other { b } x: inc set(v: \"s\") { id } other { tags } }",
     "mutation { set(v: \"x\") { name id a } inc other { strict b } }",
 ]
 # sibling fields awaited in place or gathered, per field: default (all gathered) and the two alternating assignments
